@@ -12,6 +12,7 @@ observed by the harness in child processes.
 import ThriftVerif.Compile.RepairedProofs
 import ThriftVerif.Compile.ConstTotalPlain
 import ThriftVerif.Compile.ConstTotalDCLift
+import ThriftVerif.Compile.CycleMemo
 
 namespace ThriftVerif.Properties.C08
 open ThriftVerif.Compile
@@ -76,8 +77,8 @@ theorem compile_total_closed_defaults {pre : Bool} {o : Orders} {src : Program} 
 /-- The typedef cycle search as it runs since the repair of finding D85 (`visitCycleM`: a shared memo of
 the types under which nothing leads back) gives the verdict of the plain search (`visitCycle`, exponential
 on shared typedefs) on the two witnesses: no cycle in `typedef map<T1,T1> T0 … typedef i32 T4`, a cycle in
-`typedef map<B,B> A  typedef list<A> B`; and the compiler accepts the first and rejects the second. (That
-the two searches agree on every program is not proved; the memoised one is what is tied to the code.) -/
+`typedef map<B,B> A  typedef list<A> B`; and the compiler accepts the first and rejects the second. (Tests of
+the definitions; that the two searches agree on every program is `cycle_search_memo_agrees` below.) -/
 theorem cycle_search_witnesses :
     ((gather progD85).map fun p =>
       (visitCycle p (cycleFuel p) [] (.named 0 (nm "T0")), (visitCycleM p (cycleFuel p) [] [] (.named 0 (nm "T0"))).1,
@@ -88,6 +89,60 @@ theorem cycle_search_witnesses :
     (compile 100 [] progD85).toOption.isSome = true ∧
     (compile 100 [] progTypedefCycle).toOption.isSome = false := by
   refine ⟨?_, ?_, ?_, ?_⟩ <;> decide +kernel
+
+/-- **The typedef cycle search of the code (shared memo, repair D85) gives the verdict of the plain search,
+on every program and every named type.** `visitCycleM` records the typedefs under which it found nothing and
+does not search them again, whatever chain it meets them under later; `visitCycle` searches everything
+again. The memo is sound because it is only consulted under a chain every member of which leads to the
+type at hand, and a recorded typedef has a finite unfolding: if it led back into the chain it would lie
+below itself (`visitCycleM_false`, `fin_no_self`). An error of the memoised search is an error of the
+plain one with the same fuel for any memo (`visitCycleM_true`). -/
+theorem cycle_search_memo_agrees (p : GProg) (m : Nat) (n : Name) :
+    (visitCycleM p (cycleFuel p) [] [] (.named m n)).1 = visitCycle p (cycleFuel p) [] (.named m n) :=
+  memo_verdict_cycleFuel p m n
+
+/-- **The fuel of the cycle search is enough: its error is never for lack of fuel.** `cycleFuel` = the
+summed depth of all typedef targets + 2; a chain cannot meet a typedef twice without an error, so
+what the search clears with any fuel it clears with this one (`visitCycle_fuel_enough`). -/
+theorem cycle_verdict_fuel_independent (p : GProg) (m : Nat) (n : Name) :
+    (visitCycle p (cycleFuel p) [] (.named m n) = true → ∀ f, visitCycle p f [] (.named m n) = true) ∧
+    (∀ f, visitCycle p f [] (.named m n) = false → visitCycle p (cycleFuel p) [] (.named m n) = false) :=
+  ⟨cycleFuel_adequate p m n, fun f h => by
+    cases hv : visitCycle p (cycleFuel p) [] (.named m n) with
+    | false => rfl
+    | true => rw [cycleFuel_adequate p m n hv f] at h; cases h⟩
+
+/-- **"No typedef cycle", declaratively.** The search clears a named type exactly when the unfolding of
+the type — typedefs replaced by their targets, through containers — is a finite tree in which every
+typedef resolves (`fin p h t`: finished within depth `h`). -/
+theorem no_cycle_iff_finite_unfolding (p : GProg) (m : Nat) (n : Name) :
+    visitCycle p (cycleFuel p) [] (.named m n) = false ↔ ∃ h, fin p h (.named m n) = true :=
+  visitCycle_false_iff_fin p m n
+
+/-- **What `compileWith` consults (`moduleHasCycle`, tied to the code through the compile driver) is the
+plain search over the typedefs of the module**, hence by `no_cycle_iff_finite_unfolding`: a module is
+rejected for a typedef cycle exactly when one of its typedefs has no finite unfolding. -/
+theorem module_cycle_check_spec (p : GProg) (m : Nat) :
+    moduleHasCycle p m = true ↔
+      ∃ n d, (n, d) ∈ (modAt p m).types ∧ (∃ t, d = .typedef t) ∧ ¬ ∃ h, fin p h (.named m n) = true := by
+  rw [moduleHasCycle_plain, List.any_eq_true]
+  constructor
+  · rintro ⟨⟨n, d⟩, hmem, hv⟩
+    cases d with
+    | typedef t =>
+      refine ⟨n, _, hmem, ⟨t, rfl⟩, ?_⟩
+      rw [← no_cycle_iff_finite_unfolding]
+      simpa using hv
+    | _ => simp at hv
+  · rintro ⟨n, d, hmem, ⟨t, rfl⟩, hno⟩
+    refine ⟨(n, .typedef t), hmem, ?_⟩
+    rw [← no_cycle_iff_finite_unfolding] at hno
+    simpa using hno
+
+/-- non-vacuity: the two witnesses sit on either side of the characterisation -/
+example : ((gather progD85).map fun p => fin p 12 (.named 0 (nm "T0"))) = some true ∧
+    ((gather progTypedefCycle).map fun p => moduleHasCycle p 0) = some true := by
+  refine ⟨?_, ?_⟩ <;> decide +kernel
 
 /-- **Regression witnesses (D4, D6, D40, D5, D74 — repaired): the former non-terminating inputs end
 in an error.** On `const i32 a = b  const i32 b = a`, `const list<i32> c = c` (and the same
